@@ -78,7 +78,33 @@ WrongCases ==
 \* a name that is no built-in of the receiver's type (and no custom function) is an error
 \cup {[r |-> r, f |-> f, a |-> <<>>] : r \in {C(<<"a">>), A(<<I(1)>>), I(1), F(1, 1), B(TRUE)}, f \in {"nope", "float", "binary", "join", "upper"} }
 
-Cases == CASE Family = "str2" -> StrCases(2) \cup ContainsCases(2, 1) \cup DecCases
+\* C20: the plain Go value a custom function receives for each template value (int64, float64, string, bool, nil,
+\* []any, map[string]any, recursively); the receiver of an integer function is a Go int
+RECURSIVE Desc(_)
+RECURSIVE DescList(_)
+RECURSIVE DescPairs(_)
+DescList(vs) == IF vs = <<>> THEN "" ELSE IF Len(vs) = 1 THEN Desc(vs[1]) ELSE Desc(vs[1]) \o "," \o DescList(Tail(vs))
+DescPairs(ps) == IF ps = <<>> THEN "" ELSE ps[1].pk \o ":" \o Desc(ps[1].pv) \o (IF Len(ps) = 1 THEN "" ELSE "," \o DescPairs(Tail(ps)))
+Desc(v) == CASE v.t = "int" -> "int64(" \o ShowInt(v) \o ")"
+             [] v.t = "float" -> "float64(" \o StrOfFloat(v) \o ")"
+             [] v.t = "str" -> "string(" \o ShowB(v) \o ")"
+             [] v.t = "bool" -> (IF v.bv THEN "bool(true)" ELSE "bool(false)")
+             [] v.t = "nil" -> "nil"
+             [] v.t = "arr" -> "[]any{" \o DescList(v.es) \o "}"
+             [] v.t = "obj" -> "map{" \o DescPairs(v.ps) \o "}"       \* keys in sorted order (the families use sorted keys)
+RecvDesc(v) == IF v.t = "int" THEN "int(" \o ShowInt(v) \o ")" ELSE Desc(v)
+ConvVals == {I(3), I(-7), IMax(0), IMin(0), F(5, 1), F(-3, 0), C(<<"a", "$e$">>), C(<<>>), B(TRUE), B(FALSE), Nil, A(<<>>),
+             A(<<I(1), S("x"), Nil>>), A(<<A(<<I(2), A(<<>>)>>), O(<<[pk |-> "k", pv |-> F(1, 1)]>>)>>), O(<<>>),
+             O(<<[pk |-> "a", pv |-> I(1)]>>)}
+ConvRecvs == {C(<<"a", "B">>), C(<<>>), A(<<I(1), A(<<S("n")>>), Nil>>), A(<<>>), I(5), I(-5), IMax(0), F(5, 1), F(4, 0), B(TRUE), B(FALSE)}
+ConvCases == {[r |-> r, f |-> "rec", a |-> <<x>>] : r \in ConvRecvs, x \in ConvVals}
+        \cup {[r |-> r, f |-> "rec", a |-> <<x, y, Nil>>] : r \in {C(<<"a", "B">>), I(5)}, x \in ConvVals, y \in {I(3), O(<<[pk |-> "a", pv |-> I(1)]>>)}}
+        \cup {[r |-> r, f |-> "rec", a |-> <<>>] : r \in ConvRecvs}
+ConvRecord(c) == [src |-> "{{ r = " \o LitV(c.r) \o " }}{{ r.rec(" \o LitList(c.a) \o ") }}", recv |-> RecvDesc(c.r), args |-> [i \in 1..Len(c.a) |-> Desc(c.a[i])],
+                  t |-> c.r.t, tags |-> <<"conv", c.r.t>>]
+
+Cases == CASE Family = "conv" -> ConvCases
+           [] Family = "str2" -> StrCases(2) \cup ContainsCases(2, 1) \cup DecCases
            [] Family = "str3" -> StrCases(3) \cup ContainsCases(3, 2) \cup DecCases
            [] Family = "arr2" -> ArrCases(2) \cup SliceCases
            [] Family = "arr3" -> ArrCases(3) \cup SliceCases
@@ -112,8 +138,8 @@ LemmaCase == \A r \in Strs(2) : StrFn("lower", StrFn("upper", r, <<>>), <<>>) = 
 ASSUME LemmaLenRev /\ LemmaSlice /\ LemmaCase
 
 Init == cas \in Cases /\ rec = [src |-> ""]
-Next == rec.src = "" /\ rec' = Record(cas) /\ UNCHANGED cas
+Next == rec.src = "" /\ rec' = (IF Family = "conv" THEN ConvRecord(cas) ELSE Record(cas)) /\ UNCHANGED cas
 Spec == Init /\ [][Next]_vars
-Total == rec.src # "" => rec.expect.kind \in {"out", "err", "any", "oneof"}
+Total == (rec.src # "" /\ Family # "conv") => rec.expect.kind \in {"out", "err", "any", "oneof"}
 Gen == (rec.src # "" /\ Emit_) => PrintT(ToJson(rec))
 =============================================================================
